@@ -138,6 +138,9 @@ func (ex *Explorer) assertPC(t *Term) {
 
 func (ex *Explorer) flush() {
 	if ex.pending.Len() > 0 {
+		if ex.w.cross != nil {
+			ex.w.pathLog.WriteString(ex.pending.String())
+		}
 		ex.w.solver.Send(ex.pending.String())
 		ex.pending.Reset()
 	}
@@ -589,7 +592,10 @@ func (w *Worker) runPath(d *Driver, it workItem) (items []workItem, r PathResult
 		case engineAbort:
 			r.Outcome, r.Msg = p.kind, p.msg
 			if p.kind == "violation" {
-				mkCex("assert", p.msg)
+				if ex.panicMsg != "" {
+					r.Msg += " [panic: " + ex.panicMsg + "]"
+				}
+				mkCex("assert", r.Msg)
 			}
 		case targetPanic:
 			r.Outcome = "violation"
